@@ -61,8 +61,7 @@ theorem c14_expand_once (cs : Classes) (h : Heap) (cur : Val) :
   · apply ssLoop_nodup
     · intro x hx; cases cur <;> simp_all
     · cases cur <;> simp
-  · obtain ⟨news, h1, h2, h3⟩ := ssLoop_structure cs h (extendChildren cs h cur) 0
-      (match cur with | .ref a => [a] | _ => []) (match cur with | .ref a => [a] | _ => [])
+  · obtain ⟨news, h1, h2, h3⟩ := ssLoop_structure cs h (extendChildren cs h cur) 0 _ _
     refine ⟨news, h1, by rw [h2], fun a ha => ⟨(h3 a ha).1, ?_⟩⟩
     intro e
     subst e
@@ -151,6 +150,7 @@ theorem c14_model_checks (cs : Classes) (h : Heap) (hw : heapWF cs h = true) (hc
   · intro key kind
     unfold checkC14
     rw [c14_broadcast cs h hw hc steps hs key kind target]
+    simp only
     cases hr : refMutate cs h steps key kind target with
     | ok p => obtain ⟨h', e⟩ := p; simp
     | error e => cases e <;> simp
@@ -169,23 +169,44 @@ example : heapWF exCls exHeap = true ∧ classesWF exCls = true := by decide
 example : wfOps [("X", .none), ("P", .str "k")] = true := by decide
 -- `**` on the cyclic root: the root, its two references to the list, then the list's three items
 -- once (the second reference is not expanded again), then the object's attribute
-example : (starstarItems exCls exHeap (.ref 0)).1 =
-    [.ref 0, .ref 1, .ref 1, .ref 0, .int 7, .ref 2, .ref 1] := by decide
-example : (starstarItems exCls exHeap (.ref 0)).2 = [0, 1, 2] := by decide
+private theorem ex_e0 : extendChildren exCls exHeap (.ref 0) = [.ref 1, .ref 1] := by decide
+private theorem ex_e1 : extendChildren exCls exHeap (.ref 1) = [.ref 0, .int 7, .ref 2] := by decide
+private theorem ex_e2 : extendChildren exCls exHeap (.ref 2) = [.ref 1] := by decide
+private theorem ex_len : exHeap.length = 3 := rfl
+example : starstarItems exCls exHeap (.ref 0) =
+    ([.ref 0, .ref 1, .ref 1, .ref 0, .int 7, .ref 2, .ref 1], [0, 1, 2]) := by
+  unfold starstarItems
+  simp only [ex_e0]
+  repeat (rw [ssLoop]; simp [ex_e1, ex_e2, ex_len])
 example : descend exCls exHeap (.ref 0) = [.ref 0, .ref 1, .ref 1, .ref 0, .int 7, .ref 2, .ref 1] := by
-  decide
+  rw [← c14_starstar_bfs exCls exHeap (by decide) (by decide)]
+  unfold starstarItems
+  simp only [ex_e0]
+  repeat (rw [ssLoop]; simp [ex_e1, ex_e2, ex_len])
 -- the self-referential list of the repaired defect F8: `a = []; a.append(a); glom(a, '**')`
-example : (starstarItems [] [.list "list" [.ref 0]] (.ref 0)).1 = [.ref 0, .ref 0] := by decide
+example : (starstarItems [] [.list "list" [.ref 0]] (.ref 0)).1 = [.ref 0, .ref 0] := by
+  have e : extendChildren [] [.list "list" [.ref 0]] (.ref 0) = [.ref 0] := by decide
+  unfold starstarItems
+  simp only [e]
+  repeat (rw [ssLoop]; simp)
 -- an instance of a list subclass that has a `__dict__` is walked by its items (repaired 6678f8c)
 example : starItems [("LSub", ⟨["LSub", "list", "object"], true, true⟩)]
     [.list "LSub" [.int 1, .int 2]] (.ref 0) = [.int 1, .int 2] := by decide
--- steps after a wildcard: `**.k` keeps the one entry that has a `k`; two wildcards nest twice
-example : modelRead exCls exHeap [("X", .none), ("P", .str "k")] (.ref 0) =
-    .ok (.list [.val (.ref 1)]) := by decide
+-- steps after a wildcard: `*.k` keeps the entries that have a `k`; two wildcards nest twice
+private def okIs (o : Obs) (r : Res) : Bool := match o with | .ok r' => Res.beq r' r | _ => false
+example : okIs (modelRead exCls exHeap [("P", .str "a"), ("x", .none), ("P", .str "k")] (.ref 0))
+    (.list [.val (.ref 1)]) = true := by decide
+example : okIs (modelRead exCls exHeap [("x", .none), ("x", .none)] (.ref 0))
+    (.list [.list [.val (.ref 0), .val (.int 7), .val (.ref 2)],
+            .list [.val (.ref 0), .val (.int 7), .val (.ref 2)]]) = true := by decide
 example : nested 2 (.list [.list [.val (.int 1)], .list []]) = true := by decide
 -- a string has no children
-example : starItems [] [] (.str "abc") = [] ∧ (starstarItems [] [] (.str "abc")).1 = [.str "abc"] := by
-  decide
+example : starItems [] [] (.str "abc") = [] := by decide
+example : (starstarItems [] [] (.str "abc")).1 = [.str "abc"] := by
+  have e : extendChildren [] [] (.str "abc") = [] := by decide
+  unfold starstarItems
+  simp only [e]
+  rw [ssLoop]; simp
 
 /-- **Counter-example for the hypothesis `heapWF`** (forced by `c14_star`): a "dict" cell with two
     equal keys cannot be built in Python; in it the second value is unreachable through the key, so
